@@ -31,24 +31,25 @@ Proof.
   destruct (all_reachable _ _ _ _ Hr) as (Hst & Hq & Ha & Hf & Hi).
   unfold disciplined in Hd. apply negb_true_iff in Hd.
   unfold in_join_drained in Hj.
-  destruct s as [cm cp pp hd tk dn bp ch lg ud ou ce co]. cbn in *.
+  destruct s as [cm cp pp hd tk dn bp mx ch lg ud ou ce co]. cbn in *.
   destruct cp; try discriminate. destruct d; try discriminate. subst ud.
   unfold enabled, step, step_c, step_p, send, repaired. cbn.
   unfold_all.
   destruct Hi as [Hi1 Hi2]. specialize (Hi1 eq_refl eq_refl).
   destruct Hf as (Hf1 & Hf2 & Hf3 & Hf4).
-  destruct Hst as ((_ & Hnn) & _).
-  destruct pp; cbn in *; auto; try (exfalso; apply Hnn; reflexivity).
-  - destruct es0; [contradiction|]. destruct dn; auto.
+  destruct Hst as ((_ & Hnn) & _ & _ & _ & Hmx & _). unfold p_held, c_held in Hmx. cbn in Hmx.
+  destruct pp; cbn in *; auto; try (exfalso; apply Hnn; reflexivity); right.
+  all: try (destruct es0; [contradiction|]).
+  all: try (subst mx; cbn).
+  all: try solve [destruct dn; auto].
   - (* PSend: the channel has room *)
-    right. assert (length ch = 0) by (destruct dn; lia). rewrite H.
+    assert (E0 : length ch = 0) by (destruct dn; lia). rewrite E0.
     destruct (0 <? k) eqn:E; auto. apply Nat.ltb_ge in E. lia.
   - (* PPark: the kick's token is there *)
-    right. destruct Hf2 as [[Hk1 Hd1]|[Hk0 Ho]].
+    destruct Hf2 as [[Hk1 Hd1]|[Hk0 Ho]].
     + rewrite (Hi2 Hk1). reflexivity.
     + destruct Ho as [Ho|[Ho|Ho]]; discriminate.
-  - right. destruct dn; auto.
-  - right. assert (length ch = 0) by (destruct dn; lia). rewrite H.
+  - assert (E0 : length ch = 0) by (destruct dn; lia). rewrite E0.
     destruct (0 <? k) eqn:E; auto. apply Nat.ltb_ge in E. lia.
 Qed.
 
@@ -62,19 +63,20 @@ Proof.
 Qed.
 
 (* ---- termination: every step decreases a measure, so every schedule is finite ---------------- *)
-Definition pw (es : list entry) : nat := 4 * length es + 8.
-Definition cmd_weight (c : cmd) : nat := match c with CRun es _ => 20 + 4 * length es | _ => 3 end.
+Definition pw (es : list entry) : nat := 5 * length es + 8.
+Definition cmd_weight (c : cmd) : nat := match c with CRun es _ => 20 + 5 * length es | _ => 3 end.
 Definition c_rank (c : cpc) : nat :=
   match c with
-  | CIdle => 0 | KLoad => 2 | KUnpark => 1
+  | CIdle => 0 | KLoad => 2 | KUnpark => 1 | EAdd _ | EDel _ => 1
   | RLoad _ es _ => 7 + pw es | RStore _ es _ => 6 + pw es | RUnpark _ es _ => 5 + pw es
   | RJoin _ es _ => 4 + pw es | RReset es _ => 3 + pw es | RSpawn es _ => 2 + pw es
   end.
 Definition p_rank (p : ppc) : nat :=
   match p with
   | PNone | PDead => 0 | PDone => 1 | PExit => 2 | PStore => 3 | PFinalSend _ => 4 | PFinal _ => 5
-  | PStart es _ => 4 * length es + 7 | PLoad es _ => 4 * length es + 6
-  | PLock _ es _ => 4 * length es + 9 | PSend _ es _ => 4 * length es + 8 | PPark es _ => 4 * length es + 7
+  | PStart es _ => 5 * length es + 7 | PLoad es _ => 5 * length es + 6
+  | PLock _ es _ => 5 * length es + 10 | PHeld _ es _ => 5 * length es + 9
+  | PSend _ es _ => 5 * length es + 8 | PPark es _ => 5 * length es + 7
   end.
 Definition measure (s : state) : nat :=
   list_sum (map cmd_weight (cmds s)) + c_rank (c_pc s) + p_rank (p_pc s).
@@ -94,4 +96,43 @@ Proof.
   - injection H as <-. cbn. lia.
   - destruct (step cf s t) eqn:E; [|discriminate].
     apply step_decreases in E. apply IH in H. cbn [length]. lia.
+Qed.
+
+(* ---- the mutex of the breakpoint set never blocks for good (any version of the code) ---------- *)
+(* the controller is about to call add_breakpoint / delete_breakpoint *)
+Definition edit_pending (s : state) : bool :=
+  match c_pc s, cmds s with
+  | CIdle, CAdd _ :: _ | CIdle, CDel _ :: _ => true
+  | _, _ => false
+  end.
+(* the listener is about to lock the breakpoint set *)
+Definition lookup_pending (s : state) : bool := match p_pc s with PLock _ _ _ => true | _ => false end.
+
+(* Whoever wants the guard either gets it at once, or the other thread holds it, can always take its
+   next step, and that step drops the guard: in particular an edit issued while the parse is stopped
+   at a breakpoint (parked, or blocked in send) goes through immediately. *)
+Definition edits_never_block (cf : config) (s : state) : Prop :=
+  (edit_pending s = true ->
+     enabled cf s C = true \/
+     (enabled cf s P = true /\ forall s', step cf s P = Some s' -> enabled cf s' C = true)) /\
+  (lookup_pending s = true ->
+     enabled cf s P = true \/
+     (enabled cf s C = true /\ forall s', step cf s C = Some s' -> enabled cf s' P = true)) /\
+  (* while parked or blocked in send the parsing thread does not hold the guard *)
+  (match p_pc s with PSend _ _ _ | PPark _ _ | PFinal _ | PFinalSend _ => edit_pending s = true -> enabled cf s C = true | _ => True end).
+
+Theorem mutex_never_blocks : forall cf cs b s, reachable cf cs b s -> edits_never_block cf s.
+Proof.
+  intros cf cs b s Hr. pose proof (struct_reachable _ _ _ _ Hr) as Hst.
+  destruct Hst as (_ & _ & _ & _ & Hmx & Hex).
+  destruct s as [cm cp pp hd tk dn bp mx ch lg ud ou ce co].
+  unfold p_held, c_held, edits_never_block, edit_pending, lookup_pending, enabled, step, step_c, step_p in *. cbn in *.
+  repeat split.
+  - intros He. destruct cp; try discriminate. destruct cm as [|c cm]; try discriminate.
+    destruct c; try discriminate; cbn in *; rewrite orb_false_r in Hmx; subst mx;
+      (destruct pp; cbn; auto; right; split; [reflexivity|]; intros s' E; injection E as <-; reflexivity).
+  - intros He. destruct pp; try discriminate. cbn in *. subst mx.
+    destruct cp; cbn; auto; right; (split; [reflexivity|]); intros s' E; injection E as <-; reflexivity.
+  - destruct pp; auto; intros He; destruct cp; try discriminate; destruct cm as [|c cm]; try discriminate;
+      destruct c; try discriminate; cbn in *; subst mx; reflexivity.
 Qed.
